@@ -177,6 +177,48 @@ Section Equiv.
     rmatch C gen_se_items true s [] = option_map enc (se_frame_re C s).
   Proof. intro E. rewrite E. apply whole_re. apply tail_se_re. Qed.
 
+  (* ---- _repeat_re -------------------------------------------------------------------------------- *)
+  Lemma close_re a t cp :
+    rmatch C [ILit 93; IEol] a t cp = if close_ok t then Some cp else None.
+  Proof.
+    cbn [rmatch]. unfold close_ok, end_ok. destruct t as [|y r]; [reflexivity|].
+    destruct (y =? 93); [|reflexivity]. cbn [andb]. destruct r as [|c [|d r]]; reflexivity.
+  Qed.
+
+  Lemma ropt c0 r a s cp :
+    rmatch C (IOpt c0 :: r) a s cp =
+    match s with
+    | x :: s' => if x =? c0 then match rmatch C r false s' cp with Some res => Some res | None => rmatch C r a s cp end
+                 else rmatch C r a s cp
+    | [] => rmatch C r a s cp
+    end.
+  Proof. reflexivity. Qed.
+
+  Theorem repeat_re_is_re s :
+    gen_repeat_items = IBol :: map ILit M_prevline ++ IPlusGroup 1 CDigit ::
+                       (map ILit M_moretime ++ [IOpt 115; ILit 93; IEol]) ->
+    rmatch C gen_repeat_items true s [] =
+    match repeat_re C s with Some d => Some [(1, d)] | None => None end.
+  Proof.
+    intro E. rewrite E. cbn [rmatch]. rewrite rmatch_lits by discriminate. unfold repeat_re.
+    destruct (drop_prefix M_prevline s) as [t|]; [|reflexivity].
+    cbn [rmatch]. destruct t as [|x t1]; [reflexivity|].
+    cbn [in_cls span]. destruct (is_dg C x) eqn:Ex; [|reflexivity].
+    rewrite greedy_span.
+    - change (in_cls C CDigit) with (is_dg C). destruct (span (is_dg C) t1) as [a b]. cbn [rev app]. cbv beta.
+      rewrite rmatch_lits by discriminate.
+      destruct (drop_prefix M_moretime b) as [t3|]; [|reflexivity].
+      rewrite ropt. destruct t3 as [|c r].
+      + rewrite close_re. reflexivity.
+      + destruct (c =? 115) eqn:Ec.
+        * rewrite !close_re. destruct (close_ok r); [reflexivity|].
+          apply N.eqb_eq in Ec. subst c. reflexivity.
+        * rewrite close_re. destruct (close_ok (c :: r)); reflexivity.
+    - intros consumed c rest Hc. cbv beta. rewrite rmatch_lits by discriminate.
+      unfold M_moretime. rewrite drop_prefix_head; [reflexivity|].
+      intro E2. subst c. cbn [in_cls] in Hc. rewrite (dg_low C OK 32) in Hc by lia. discriminate.
+  Qed.
+
   (* _underline_re: any class with the same members as the model's set *)
   Theorem underline_re_is_re l s :
     gen_underline_items = [IBol; IStar (CSet l); IEol] ->
